@@ -15,7 +15,7 @@ def textCovered : List String :=
     | none => false)).map (·.1)
 
 theorem text_covered_types :
-    textCovered = ["A", "AFSDB", "AVC", "CAA", "CDNSKEY", "CDS", "CNAME", "CSYNC", "DHCID", "DLV", "DNAME", "DNSKEY", "DS", "EID", "EUI48", "EUI64", "GID", "HINFO", "ISDN", "KEY", "KX", "L64", "LP", "MB", "MD", "MF", "MG",
+    textCovered = ["A", "AFSDB", "AVC", "CAA", "CDNSKEY", "CDS", "CERT", "CNAME", "CSYNC", "DHCID", "DLV", "DNAME", "DNSKEY", "DS", "EID", "EUI48", "EUI64", "GID", "HINFO", "ISDN", "KEY", "KX", "L64", "LP", "MB", "MD", "MF", "MG",
       "MINFO", "MR", "MX", "NID", "NIMLOC", "NINFO", "NS", "NSAPPTR", "NSEC", "NSEC3PARAM", "NXT", "OPENPGPKEY", "PTR", "PX", "RESINFO", "RKEY", "RP", "RT", "SMIMEA", "SOA", "SPF", "SRV",
       "SSHFP", "TA", "TALINK", "TLSA", "TXT", "UID", "UINFO", "URI", "X25", "ZONEMD"] := by
   decide
@@ -49,6 +49,7 @@ theorem fits_exist (P Q : List TStep) (h : matchPlans P Q = true) : ∃ vals val
       exact ⟨.s [65], ⟨by simp, by decide⟩⟩
     · exact ⟨.n 0, by simp only [FieldWF]; exact Nat.two_pow_pos _⟩
     · exact ⟨.n 0, by simp [FieldWF]⟩
+    · exact ⟨.n 0, by simp only [FieldWF]; exact Nat.two_pow_pos _⟩
     · exact ⟨.s [0, 0, 0, 0], by simp [FieldWF]⟩
   fun_induction matchPlans P Q
   · exact ⟨_, _, Fits.txt [] (by simp)⟩
